@@ -194,10 +194,9 @@ SER_TEMPLATES = [
     (rf'^{ID}\.join\("\\n"\)$', "SJoinNl"),
     (rf'^{ID}\.display\(\)\.to_string\(\)$', "SStr"),                       # Path: identity on UTF-8 text
     (rf'^{ID}\.to_string\(\)$', "TYPE"),                                      # same as the default
-    (rf'^letmuts=String::new\(\);for\(key,value\)in{ID}\{{s\.push_str\(&format!\("\{{\}}=\{{\}}\\n",key,value\)\);\}}s$', f"SExt {EXT_ID['EnvMap']}"),
-    (rf'^{ID}\.into_iter\(\)\.map\(\|rt\|rt\.to_string\(\)\)\.collect::<Vec<String>>\(\)\.join\("\\n"\)$', f"SExt {EXT_ID['TypesSet']}"),
     (rf'^{ID}\.into_iter\(\)\.map\(\|u\|u\.as_str\(\)\)\.collect::<Vec<&str>>\(\)\.join\(" "\)$', f"SExt {EXT_ID['UrlList']}"),
-    # the same two serialisers after proposed_fixes/C20-*.patch (sorted; no line end after the last entry)
+    # Environment / Types: sorted, joined by "\n" (since ae6834b / 5238470; the earlier unsorted bodies are no longer
+    # recognised: model/DeriveExt.v transcribes these)
     (rf'^letmutlines={ID}\.iter\(\)\.map\(\|\(key,value\)\|format!\("\{{\}}=\{{\}}",key,value\)\)\.collect::<Vec<_>>\(\);lines\.sort\(\);lines\.join\("\\n"\)$', f"SExt {EXT_ID['EnvMap']}"),
     (rf'^letmuttypes={ID}\.into_iter\(\)\.map\(\|rt\|rt\.to_string\(\)\)\.collect::<Vec<String>>\(\);types\.sort\(\);types\.join\("\\n"\)$', f"SExt {EXT_ID['TypesSet']}"),
     (rf'^{ID}\.format\("%Y-%m-%d"\)\.to_string\(\)$', f"SExt {EXT_ID['NaiveDate']}"),
@@ -208,6 +207,8 @@ DE_TEMPLATES = [
     (rf'^Ok\({ID}=="ja"\)$', "DJa"),
     (rf'^Ok\({ID}\.split_whitespace\(\)\.map\(\|{ID}\|{ID}\.to_string\(\)\)\.collect\(\)\)$', "DSplitWs"),
     (rf"^Ok\({ID}\.split\('\\n'\)\.map\((\|{ID}\|{ID}\.to_string\(\)|ToString::to_string)\)\.collect\(\)\)$", "DSplitNl"),
+    # the same with the empty text read as the empty list (proposed_fixes/C16-empty-list-newline.patch)
+    (rf"^if{ID}\.is_empty\(\)\{{returnOk\((vec!\[\]|Vec::new\(\))\);\}}Ok\({ID}\.split\('\\n'\)\.map\((\|{ID}\|{ID}\.to_string\(\)|ToString::to_string)\)\.collect\(\)\)$", "DSplitNlE"),
     (rf'^Ok\({ID}\.lines\(\)\.map\(\|{ID}\|{ID}\.to_string\(\)\)\.collect\(\)\)$', "DLines"),
     (rf'^Ok\(PathBuf::from\({ID}\)\)$', "DStr"),
     (rf'^{ID}\.parse\(\)\.map_err\(\|e:debversion::ParseError\|e\.to_string\(\)\)$', "TYPE"),
@@ -354,6 +355,7 @@ def extract_structs(src_raw, relpath):
                     fattrs.update(parse_deb822_attr(mm.group(1), where))
                 elif re.match(r"deb822\b", a):
                     raise TranslateError(f"{where}: deb822 attribute without argument list")
+            is_pub = re.match(r"^pub\s+(?!\()", ftxt) is not None      # plain `pub`: reachable from the harness
             ftxt = re.sub(r"^pub(\s*\([^)]*\))?\s+", "", ftxt)
             mm = re.match(r"(r#)?(" + ID + r")\s*:\s*(.*)$", ftxt, re.S)
             if not mm:
@@ -372,7 +374,7 @@ def extract_structs(src_raw, relpath):
             else:
                 de = dde or "DUnrecognised"
                 if dde is None: notes.append(f"type {inner} has no entry in the type table")
-            fields.append({"ident": ident, "key": fattrs.get("field", ident), "optional": opt, "type": re.sub(r"\s+", " ", ty),
+            fields.append({"ident": ident, "key": fattrs.get("field", ident), "optional": opt, "pub": is_pub, "type": re.sub(r"\s+", " ", ty),
                            "inner": re.sub(r"\s+", " ", inner), "ser": ser, "de": de,
                            "ser_fn": fattrs.get("serialize_with"), "de_fn": fattrs.get("deserialize_with"), "notes": notes})
         out.append({"name": name, "file": relpath, "from": has_from, "to": has_to, "derives": derives,
@@ -498,6 +500,73 @@ def signature_flag(repo):
     if re.match(strip, nb): return "strip"
     return "unrecognised"
 
+# ----------------------------------------------------------------------------- the macro itself
+# model/Derive.v is a hand transcription of the quote! templates of deb822-derive/src/lib.rs and of
+# its is_option test.  They are pinned here by their text (whitespace outside literals removed, in
+# source order): when one of them changes, `macro_templates_pinned` becomes false and the proof cone
+# fails (C16_macro_pinned) until the model has been re-read against the new text.
+MACRO_QUOTES = [
+    '#deserialize_with',
+    'std::str::FromStr::from_str',
+    '#ident:para.get(#key).map(|v|#deserialize_with(&v).map_err(|e|format!("parsing field {}: {}",#key,e))).transpose()?',
+    '#ident:#deserialize_with(&para.get(#key).ok_or_else(||format!("missing field: {}",#key))?).map_err(|e|format!("parsing field {}: {}",#key,e))?',
+    'impl<P:deb822_lossless::convert::Deb822LikeParagraph>deb822_lossless::FromDeb822Paragraph<P>for#name{fnfrom_paragraph(para:&P)->Result<Self,String>{Ok(Self{#(#from_fields,)*})}}',
+    '#serialize_with',
+    'ToString::to_string',
+    'ifletSome(v)=&self.#ident{fields.push((#key.to_string(),#serialize_with(&v)));}',
+    'fields.push((#key.to_string(),#serialize_with(&self.#ident)));',
+    'ifletSome(v)=&self.#ident{para.set(#key,#serialize_with(&v).as_str());}else{para.remove(#key);}',
+    'para.set(#key,#serialize_with(&self.#ident).as_str());',
+    'impl<P:deb822_lossless::convert::Deb822LikeParagraph>deb822_lossless::ToDeb822Paragraph<P>for#name{fnto_paragraph(&self)->P{letmutfields=Vec::<(String,String)>::new();#(#to_fields)*fields.into_iter().collect()}fnupdate_paragraph(&self,para:&mutP){#(#update_fields)*}}',
+]
+MACRO_IS_OPTION = 'ifletType::Path(TypePath{path,..})=ty{ifletSome(segment)=path.segments.last(){returnsegment.ident=="Option";}}false'
+# how the templates are chosen (key, default codec, is_option dispatch): the lines of the two derive
+# functions outside the quote! blocks, pinned as well
+MACRO_GLUE = [
+    'letkey=attrs.field.unwrap_or_else(||ident.as_ref().unwrap().to_string());',
+    'letdeserialize_with=ifletSome(deserialize_with)=attrs.deserialize_with{quote!{}}else{quote!{}};',
+    'letis_option=is_option(ty);',
+    'ifis_option{quote!{}}else{quote!{}}',
+    'letserialize_with=ifletSome(serialize_with)=attrs.serialize_with{quote!{}}else{quote!{}};',
+    'to_fields.push(ifis_option{quote!{}}else{quote!{}});',
+    'update_fields.push(ifis_option{quote!{}}else{quote!{}});',
+    'forfins.fields.iter(){',
+    'letfrom_fields=s.fields.iter().map(|f|{',
+]
+
+def macro_pinned(repo):
+    """-> (bool, notes)"""
+    path = os.path.join(repo, "deb822-derive", "src", "lib.rs")
+    try:
+        src = strip_comments(open(path, encoding="utf-8").read())
+    except OSError:
+        return False, ["deb822-derive/src/lib.rs not found"]
+    notes = []
+    quotes, i = [], 0
+    blanked = []
+    last = 0
+    while True:
+        m = re.search(r"quote!\s*\{", src[i:])
+        if not m: break
+        k = i + m.end() - 1
+        e = match_close(src, k, "{", "}")
+        quotes.append(norm(src[k + 1:e]))
+        blanked.append(src[last:k + 1]); last = e
+        i = e
+    blanked.append(src[last:])
+    if quotes != MACRO_QUOTES:
+        for n, (a, b) in enumerate(zip(quotes + [None] * 20, MACRO_QUOTES + [None] * 20)):
+            if a != b:
+                notes.append(f"quote! block {n} of deb822-derive/src/lib.rs differs from the pinned text: {str(a)[:160]}")
+                break
+    if norm(find_fn_body(src, "is_option") or "") != MACRO_IS_OPTION:
+        notes.append("fn is_option of deb822-derive/src/lib.rs differs from the pinned text")
+    glue = norm("".join(blanked))
+    for g in MACRO_GLUE:
+        if g not in glue:
+            notes.append("deb822-derive/src/lib.rs: pinned line not found (quote! bodies blanked): " + g)
+    return (not notes), notes
+
 # ----------------------------------------------------------------------------- output: Coq
 def coq_str(s):
     return "[" + "; ".join(str(ord(c)) for c in s) + "]%N"
@@ -527,6 +596,10 @@ def emit_coq(structs, flags, notes):
     L.append(f"(* src/lossless.rs, impl Paragraph: which variant of remove / set the tree has *)")
     L.append(f"Definition ll_remove_variant : ll_remove_kind := {flags['ll_remove']}.")
     L.append(f"Definition ll_set_variant : ll_set_kind := {flags['ll_set']}.")
+    L.append("(* apt-sources/src/signature.rs: does Signature::from_str drop the empty first line Display writes? *)")
+    L.append(f"Definition sig_keyblock_strip : bool := {'true' if flags.get('sig_keyblock') == 'strip' else 'false'}.")
+    L.append("(* deb822-derive/src/lib.rs: are the quote! templates, is_option and the dispatch around them the pinned text? *)")
+    L.append(f"Definition macro_templates_pinned : bool := {'true' if flags.get('macro_pinned') else 'false'}.")
     if notes:
         L.append("")
         L.append("(* notes:")
@@ -539,12 +612,17 @@ def emit_coq(structs, flags, notes):
 def rust_lit(s):
     return '"' + "".join(c if (32 <= ord(c) < 127 and c not in '"\\') else "\\u{%x}" % ord(c) for c in s) + '"'
 
+def clearable(s):
+    """list-typed fields of a struct whose value the harness can replace by an empty list"""
+    local = s.get("rust_path") is None          # test structs are copied with every field made pub
+    return [f for f in s["fields"] if (f["pub"] or local) and re.sub(r"\s+", "", f["inner"]) == "Vec<String>"]
+
 def emit_rust(structs):
     L = ["// GENERATED by translate/structs.py from the Rust sources of the repository — do not edit.",
          "// Per-struct glue of the `derive` stream: one dispatch arm per deriving struct of the workspace;",
          "// the test structs of src/convert.rs (local to test functions) are copied here verbatim and",
          "// derived with the real macro.",
-         "#![allow(dead_code, unused_imports, non_camel_case_types, clippy::all)]",
+         "#![allow(dead_code, unused_imports, unused_variables, non_camel_case_types, non_snake_case, clippy::all)]",
          "use crate::s_derive::{run_full, run_to_only, Spec};",
          "use deb822_lossless::{FromDeb822, FromDeb822Paragraph, ToDeb822, ToDeb822Paragraph};", ""]
     arms = []
@@ -585,7 +663,21 @@ def emit_rust(structs):
             ty = s["rust_path"]
         if s["from"] and s["to"]:
             eq = f"Some(|a: &{ty}, b: &{ty}| a == b)" if s["partial_eq"] else "None"
-            arms.append(f"        {rust_lit(s['id'])} => run_full::<{ty}>(fs, &{spec}, {eq}),")
+            # Vec<String> fields the harness can reach: a value with an EMPTY list cannot be obtained through
+            # from_paragraph for every codec (split('\\n') never yields one), so the stream can empty them directly
+            cl = clearable(s)
+            fname = "clear_" + coq_ident(s["id"])
+            L.append(f"fn {fname}(v: &mut {ty}, key: &str) -> bool {{")
+            L.append("    match key {")
+            for f in cl:
+                if f["optional"]:
+                    L.append(f"        {rust_lit(f['key'])} => {{ v.{f['ident']} = Some(vec![]); true }}")
+                else:
+                    L.append(f"        {rust_lit(f['key'])} => {{ v.{f['ident']}.clear(); true }}")
+            L.append("        _ => false,")
+            L.append("    }")
+            L.append("}")
+            arms.append(f"        {rust_lit(s['id'])} => run_full::<{ty}>(fs, &{spec}, {eq}, {fname}),")
         elif s["to"]:
             arms.append(f"        {rust_lit(s['id'])} => run_to_only(fs, &{spec}, {ty.rsplit('::', 1)[0]}::build),")
         else:
@@ -608,7 +700,8 @@ def emit_rust(structs):
 def emit_json(structs, flags):
     return json.dumps({"ext": EXT_ID, "unordered": sorted(UNORDERED), "flags": flags, "structs": [
         {"id": s["id"], "name": s["name"], "file": s["file"], "from": s["from"], "to": s["to"], "partial_eq": s["partial_eq"],
-         "fields": [{k: f[k] for k in ("ident", "key", "optional", "type", "inner", "ser", "de", "ser_fn", "de_fn", "notes")} for f in s["fields"]]}
+         "clearable": [f["key"] for f in clearable(s)] if (s["from"] and s["to"]) else [],
+         "fields": [{k: f[k] for k in ("ident", "key", "optional", "pub", "type", "inner", "ser", "de", "ser_fn", "de_fn", "notes")} for f in s["fields"]]}
         for s in structs]}, indent=1, ensure_ascii=False) + "\n"
 
 def write_if_changed(path, txt):
@@ -699,6 +792,9 @@ def main():
         structs = collect(repo)
         flags, notes = lossless_flags(repo)
         jflags = dict(flags); jflags["sig_keyblock"] = signature_flag(repo)
+        pinned, mnotes = macro_pinned(repo)
+        jflags["macro_pinned"] = pinned
+        notes += mnotes
     except (TranslateError, ValueError, AssertionError) as e:
         print("translate/structs.py: " + str(e))
         return 1
@@ -708,7 +804,7 @@ def main():
                 if "Unrecognised" in f["ser"] + f["de"]:
                     notes.append(f"{s['id']}.{f['ident']}: {n}")
     verif = os.path.dirname(os.path.dirname(os.path.abspath(gen.rstrip("/"))))
-    ch = [write_if_changed(os.path.join(gen, "Structs_gen.v"), emit_coq(structs, flags, notes)),
+    ch = [write_if_changed(os.path.join(gen, "Structs_gen.v"), emit_coq(structs, jflags, notes)),
           write_if_changed(os.path.join(gen, "structs.json"), emit_json(structs, jflags)),
           write_if_changed(os.path.join(verif, "harness", "src", "s_derive_gen.rs"), emit_rust(structs))]
     print(f"structs.py: {len(structs)} deriving structs, {sum(len(s['fields']) for s in structs)} fields; "
